@@ -801,7 +801,13 @@ def _r9_ctor_kwargs(ctx, repo, rid="R9"):
                 and all(isinstance(v, ast.Name) and v.id in md.classes for v in st.value.values):
             tbl = {k.value: v.id for k, v in zip(st.value.keys, st.value.values)}
     if not tbl:
-        raise AnalysisError("run_from_checkpoint: engine table not found")
+        # the dispatch is not the plain {name: class} table: decide the constructor arguments by interpreting the routine for a synthetic checkpoint of every engine type
+        from ..assembly import resume_kwargs_verdict
+        ok_i, msg_i = resume_kwargs_verdict(repo)
+        ctx.check(ok_i, rid, md, f, "Molecular_Dynamics_Basic.run_from_checkpoint", "constructor arguments (interpreted)", msg_i, msg_i)
+        for _ in range(4):
+            ctx.ok(rid, f"{MDm}:run_from_checkpoint", "decided by the interpreted resume", nontrivial=False)
+        return
     # recorded top-level keys
     recorded = set()
     for q, fn in md.functions.items():
